@@ -13,7 +13,9 @@ import (
 	rs "verifharness/ref/slip10"
 )
 
-func init() { core.Register(core.Check{ID: "C08", Level: "exploration", Run: runC08}) }
+func init() {
+	core.Register(core.Check{ID: "C08", Level: "exploration", Run: func(c *core.Ctx) { runC08(c); reentrancyPass(c, "C08") }})
+}
 
 type c08curve struct {
 	name string
